@@ -863,8 +863,9 @@ def expand(item):
             uniq.append(x)
     res = {"canon": canon(s, m), "full": None, "viols": uniq, "ops": [], "out": out, "terminal": terminal}
     if not terminal:
+        # (no differential comparison for a state that already carries a violation)
         # bfs extends the state only if it has no violation or nothing but soft / known ones
-        res["full"] = full_obs(s, m)
+        res["full"] = None if uniq else full_obs(s, m)
         res["ops"] = enabled_ops(m, init)
     return res
 
